@@ -22,7 +22,7 @@ from xml.parsers import expat
 
 from twisted.internet.defer import Deferred, succeed
 from twisted.web import _flatten
-from twisted.web._stan import CDATA, Comment, Tag, slot
+from twisted.web._stan import CDATA, CharRef, Comment, Tag, slot
 from twisted.web.error import FlattenerError
 from twisted.web.iweb import IRenderable
 from zope.interface import implementer
@@ -41,13 +41,35 @@ RULE = ("random _stan trees (depth <= 5; Tag/transparent Tag/render-directive Ta
         "data and in the output, over benign and hostile padding; documents of small strings whose accumulated output crosses "
         "BUFFER_SIZE in the middle of a hostile subtree; and the same class at small scale: _flatten.BUFFER_SIZE set to 1..64 "
         "while the case runs (every string of length <= L for comment/CDATA with BUFFER_SIZE 2 and 3, random trees); "
+        "plus (white-box mutation audit, harness/mutants/C28) strings that begin with / contain a shape a special case could be "
+        "keyed on (URL forms with '://', scheme prefixes, '<?xml', '<!DOCTYPE', '</script>', ready-made entities, template "
+        "syntax, NEL / NBSP / BOM / U+2028) mixed with hostile characters in every kind of place; element and attribute names "
+        "with a special meaning to some consumer (script, style, textarea, title, pre, table, template, math, meta, t:slot ...; "
+        "xmlns, xmlns:*, style, on*, src, srcdoc, value ...) around hostile content (25% of all names); CharRef nodes (markup "
+        "characters, ASCII, non-ASCII) in text, directly in attribute values, below a Tag inside an attribute value, in slot "
+        "defaults, behind Deferreds and renderers, next to CDATA/comments and to text that would complete a reference; "
+        "an IRenderable whose render() flattens ANOTHER document to a string (re-entrant flattenString) before it returns its "
+        "content - at the start / middle / end of the outer document, inside an attribute value, behind a Deferred, nested; "
+        "and cases ('inter') in which another document is flattened completely every time the case's own flattening waits "
+        "for an unfired Deferred; "
         "distinct = (node kinds present, hostile sequences present, outcome, buffer size in effect / a string longer than it / "
-        "accumulated output longer than it / a multi-byte hostile sequence straddling a multiple of it)")
+        "accumulated output longer than it / a multi-byte hostile sequence straddling a multiple of it, interleaved or not, "
+        "'://' present, special names present)")
 ASSUMES = [
     "tag and attribute names are valid for the reading in question (XML: [A-Za-z_:][-A-Za-z0-9_:.]*; HTML: first character an "
     "ASCII letter) and an element's attribute names are distinct (case-insensitively for HTML); the flattener does not validate names",
     "slot values held in Tag.slotData are str/bytes (possibly inside a Deferred); renderers, render(), Deferreds and coroutines "
-    "are resolved to the tree they return; CharRef is not modelled",
+    "are resolved to the tree they return",
+    "CharRef(n) (not one of the statement's strings; n a character both readings can represent: no controls, no 128..159, "
+    "no surrogates) stands for the character n: the oracle's inert document has a text node in its place and the text "
+    "payload must contain the character.  Directly in an attribute value the code hands the bytes '&#n;' to the attribute "
+    "writer, which escapes the '&' (the value reads back as the literal text '&#n;'): there only the markup clause and "
+    "'value = what was handed to the writer' are required.  The Lean model has no CharRef constructor: the model line "
+    "carries a stand-in text node (the text '&#n;' in attribute position, which writes the same bytes there; an inert "
+    "alphanumeric text in content position, replaced in the model's bytes by '&#n;' escaped once per enclosing attribute "
+    "value) and such cases are compared on the flattened bytes only",
+    "a document flattened from inside render() or while another flattening waits is, to the model, invisible (the model "
+    "has no state outside one flattenString call); the oracle requires every such document to equal its stand-alone flattening",
     "HTML reading: tokenizer only — the element is not one whose content model the tree builder switches "
     "(script, style, textarea, title, xmp, iframe, noembed, noframes, noscript, plaintext); no CR/LF preprocessing, no NUL replacement",
     "XML reading: bytes are read as Latin-1 (any byte string is a character string); payloads are compared modulo XML line-end "
@@ -71,7 +93,10 @@ MANIFEST = {
             "bytes (buffering_invisible, html_roundtrip_buffered); escaping slice by slice is proved safe for text/attribute "
             "escaping and refuted for escapedCDATA/escapedComment (cdata_slices_counterexample). Model tied to _flatten.py and the "
             "tokenizers tied to expat / a transcription of the WHATWG states by differential runs on hostile trees, including "
-            "strings longer than BUFFER_SIZE with hostile sequences straddling its multiples.",
+            "strings longer than BUFFER_SIZE with hostile sequences straddling its multiples, URL-/entity-/markup-shaped strings, "
+            "element and attribute names that are special to HTML/XML consumers, CharRef nodes (byte-level tie through stand-ins; "
+            "not covered by the theorems), and re-entrant / interleaved flattenString calls (15 white-box mutants, "
+            "harness/mutants/C28/README.md).",
     "note": "html5lib unavailable: the HTML half relies on hand transcriptions (Lean + Python) of the WHATWG tokenizer states; "
             "trusts Lean kernel, pyexpat, CPython bytes.replace / re.sub",
     "technique": "Lean 4 proof (state-machine simulation lemmas + induction over the tree) + differential tie + placeholder-substitution oracle",
@@ -189,8 +214,64 @@ def node_line(n, out):
     elif k == "E":
         out.append("E")
         node_line(n[1], out)
+    elif k == "N":                       # IRenderable whose render() flattens another tree first: to the model an IRenderable
+        out.append("E")
+        node_line(n[2], out)
+    elif k == "X":                       # CharRef: see `_charref_plan`
+        out += ["T", n[2].hex()]
     else:
         raise ValueError(k)
+
+
+# ---- CharRef nodes ["X", ordinal].  The Lean model has no CharRef constructor.  What the code writes for one is the
+# ASCII bytes `&#N;` handed to the `write` in effect.  Directly in an attribute value (dataEscaper =
+# attributeEscapingDoneOutside) that is exactly what the text node "&#N;" writes there, so the model line carries that
+# text node.  In content position (dataEscaper = escapeForContent, possibly below d enclosing attribute values) no
+# text node writes `&#N;`; the model line carries an inert alphanumeric text node (unchanged by every escaper) and the
+# comparison replaces it in the model's bytes by `&#N;` escaped d times by the attribute writer's rule.
+
+def _xph(i):
+    return b"zc%dcz" % i
+
+
+def _attr_esc(b):
+    return b.replace(b"&", b"&amp;").replace(b"<", b"&lt;").replace(b">", b"&gt;").replace(b'"', b"&quot;")
+
+
+def _charref_plan(n, mode="c", depth=0, plan=None):
+    """a copy of the case tree with every X node given its stand-in text (third element) + {stand-in: real bytes}"""
+    if plan is None:
+        plan = {}
+    k = n[0]
+    if k == "X":
+        ref = b"&#%d;" % n[1]
+        if mode == "a":
+            return ["X", n[1], ref], plan
+        ph = _xph(len(plan))
+        real = ref
+        for _ in range(depth):
+            real = _attr_esc(real)
+        plan[ph] = real
+        return ["X", n[1], ph], plan
+    if k == "G":
+        _, name, nk, fr, attrs, ch, ck = n
+        transparent = name == ""
+        na = [[an, ak, _charref_plan(av, "a", depth + 1, plan)[0]] for an, ak, av in attrs]
+        nc = [_charref_plan(c, mode if transparent else "c", depth, plan)[0] for c in ch]
+        return ["G", name, nk, fr, na, nc, ck], plan
+    if k in ("SD", "R", "F"):
+        return n[:2] + [_charref_plan(n[2], mode, depth, plan)[0]], plan
+    if k == "N":
+        return ["N", n[1], _charref_plan(n[2], mode, depth, plan)[0]], plan
+    if k == "E":
+        return ["E", _charref_plan(n[1], mode, depth, plan)[0]], plan
+    if k == "L":
+        return ["L", n[1], [_charref_plan(c, mode, depth, plan)[0] for c in n[2]]], plan
+    return n, plan
+
+
+def has_charref(t):
+    return "X" in kinds(t, set())
 
 
 BIG = 4096   # total content bytes above which a case is compared on the flattened bytes only (`flatb`): the Lean
@@ -205,13 +286,21 @@ def model_line(c):
     """small cases with the real BUFFER_SIZE: the chunk-free model `flatten` (+ the three tokenizations); cases with a
     scaled BUFFER_SIZE and large cases: the chunk-level model (`FlattenIO`: every write call, the attribute wrappers,
     bufferedWrite/flushBuffer with that BUFFER_SIZE) — the two are proved equal (`buffering_invisible`)"""
-    big = is_big(c)
+    tree = c["tree"]
+    big = bytes_only(c)
     if "bs" in c or big:
         out = ["flatbw" if big else "flatw", str(c.get("bs", REAL_BUFFER_SIZE))]
     else:
         out = ["flat"]
-    node_line(c["tree"], out)
+    if has_charref(tree):
+        tree = _charref_plan(tree)[0]
+    node_line(tree, out)
     return " ".join(out)
+
+
+def bytes_only(c):
+    """compared on the flattened bytes only: large cases, and cases with a CharRef (the model's bytes carry stand-ins)"""
+    return is_big(c) or has_charref(c["tree"])
 
 
 # ------------------------------------------------------------------------------------------
@@ -242,6 +331,7 @@ class Builder:
         self.pending = []     # Deferreds to fire after flattenString was called
         self.registry = {}
         self.rn = 0
+        self.sides = []       # (case tree, result list) of every flattenString run from inside a render()
 
     def content(self, h, kind, place):
         orig = cb(h)
@@ -317,6 +407,34 @@ class Builder:
         if k == "E":
             sub = n[1]
             return _Renderable(lambda: self.build(sub), self.registry)
+        if k == "N":
+            side, sub = n[1], n[2]
+
+            def render():
+                # a render() that flattens another tree to a string first (an ETag, a cached fragment, a log line)
+                # and then returns its own content: a re-entrant flattenString in the middle of the outer one
+                res = []
+                sb = Builder()
+                saved = _flatten.writeWithAttributeEscaping          # the side document is not part of the capture
+                _flatten.writeWithAttributeEscaping = getattr(saved, "real", saved)
+                try:
+                    _flatten.flattenString(None, sb.build(side)).addBoth(res.append)
+                    for dd, v in sb.pending:
+                        dd.callback(v)
+                finally:
+                    _flatten.writeWithAttributeEscaping = saved
+                self.sides.append((side, res))
+                return self.build(sub)
+            return _Renderable(render, self.registry)
+        if k == "X":
+            orig = chr(n[1]).encode("utf-8")
+            i = self.n
+            self.n += 1
+            used = orig if self.sub is None else self.sub(i, orig, "charref")
+            self.contents.append(("charref", orig, used))
+            if used == orig:
+                return CharRef(n[1])
+            return used.decode("utf-8")       # the inert stand-in of the benign run: a text node
         raise ValueError(k)
 
 
@@ -345,10 +463,29 @@ class _Capture:
 REAL_BUFFER_SIZE = _flatten.BUFFER_SIZE
 
 
-def flatten_real(tree, sub=None, capture=False, bs=None):
+_INTER_DOC = ["G", "i", "s", {"s": ["3c26223e", "s", "plain"]}, [["id", "s", ["S", "s"]]], [["T", "3c5d5d3e26", "s"], ["S", "s"]], "list"]
+_INTER_OUT = []
+
+
+def _inter_run():
+    """another, complete flattenString while the case's own one is suspended on a Deferred → its result"""
+    res = []
+    saved = _flatten.writeWithAttributeEscaping          # not part of the case's capture
+    _flatten.writeWithAttributeEscaping = getattr(saved, "real", saved)
+    try:
+        _flatten.flattenString(None, Builder().build(_INTER_DOC)).addBoth(res.append)
+    finally:
+        _flatten.writeWithAttributeEscaping = saved
+    return res[0] if res and isinstance(res[0], bytes) else None
+
+
+def flatten_real(tree, sub=None, capture=False, bs=None, inter=False):
     """→ (bytes | None, wrapped exception class name | None, builder, [raw attribute values]).
-    `bs`: value of `_flatten.BUFFER_SIZE` while the case runs (None = the real one, untouched)."""
+    `bs`: value of `_flatten.BUFFER_SIZE` while the case runs (None = the real one, untouched).
+    `inter`: every time the flattening is suspended on an unfired Deferred another document is flattened completely
+    before the Deferred fires (results in builder.inter)."""
     b = Builder(sub)
+    b.inter = []
     cap = _Capture() if capture else None
     if cap:
         _flatten.writeWithAttributeEscaping = cap
@@ -362,6 +499,8 @@ def flatten_real(tree, sub=None, capture=False, bs=None):
         guard = 0
         while not res and b.pending and guard < 10000:
             dd, v = b.pending.pop(0)
+            if inter:
+                b.inter.append(_inter_run())
             dd.callback(v)
             guard += 1
         for dd, v in b.pending:          # never awaited (flattening failed earlier)
@@ -934,6 +1073,11 @@ def names_valid(n):
         subs.append(n[2])
     elif k == "E":
         subs.append(n[1])
+    elif k == "N":
+        subs.append(n[2])
+    elif k == "X":
+        if n[1] >= 128:       # the XML reading takes bytes as Latin-1; a reference to a non-ASCII character has no
+            x = False         # counterpart in that reading (the HTML reading, UTF-8, has)
     for s in subs:
         a, b = names_valid(s)
         x, h = x and a, h and b
@@ -962,6 +1106,8 @@ def kinds(n, acc):
         kinds(n[2], acc)
     elif k == "E":
         kinds(n[1], acc)
+    elif k == "N":
+        kinds(n[2], acc)
     return acc
 
 
@@ -969,10 +1115,10 @@ def kinds(n, acc):
 # implementation side of the tie
 
 def run_impl(c):
-    out, err, b, _ = flatten_real(c["tree"], bs=c.get("bs"))
+    out, err, b, _ = flatten_real(c["tree"], bs=c.get("bs"), inter=bool(c.get("inter")))
     if out is None:
         return "!raised FlattenerError(%s)" % err
-    if is_big(c):
+    if bytes_only(c):
         return hxr(out)
     return "%s|x=%s|h=%s|n=%s" % (hxr(out), show_tokens(xml_tokens(out)), show_tokens(html_tokens(out, True)),
                                     show_tokens(html_tokens(out, False)))
@@ -986,7 +1132,16 @@ def _fields(s):
     return d
 
 
+def _unrle(h):
+    return b"" if h == "-" else cb(h)
+
+
 def compare(c, impl_out, model_out):
+    if has_charref(c["tree"]) and not (impl_out.startswith("!") or model_out.startswith("!") or model_out == "bad-op"):
+        m = _unrle(model_out)
+        for ph, real in _charref_plan(c["tree"])[1].items():
+            m = m.replace(ph, real)
+        return _unrle(impl_out) == m
     if impl_out.startswith("!") or model_out.startswith("!") or "|" not in model_out:
         return impl_out == model_out
     a, m = _fields(impl_out), _fields(model_out)
@@ -1100,6 +1255,10 @@ def _check_reading(label, parse, tree, out_b, out_t, bt, cap_b, cap_t, xml):
         return "markup changed: %s parses as %s, with inert content as %s" % (_abbr(out_t), _show(tt), _show(tb))
     # placeholders-only attribute values must be exactly the content
     for rb_, rt_ in zip(cap_b, cap_t):
+        if any(bt.contents[int(i)][0] == "charref" for i in _PH.findall(rb_)):
+            # a CharRef directly in an attribute value is handed to the attribute writer as the bytes '&#N;' (and
+            # re-read as that literal text): not a string of the statement; the markup and raw-value clauses below apply
+            continue
         if _PH.sub(b"", rb_) == b"" and _subst(rb_, bt.contents) != rt_:
             return "attribute value of strings %s written as %s" % (_abbr(_subst(rb_, bt.contents)), _abbr(rt_))
     exp = _expected(tb, bt.contents, cap_t, xml)
@@ -1108,13 +1267,18 @@ def _check_reading(label, parse, tree, out_b, out_t, bt, cap_b, cap_t, xml):
     return None
 
 
+_DASHES = re.compile(rb"-{2,}")
+
+
 def _neutral(forbidden=False, dashes=False):
     def sub(i, orig, place):
         b = orig
         if forbidden:
             b = bytes(ch if (ch >= 32 or ch in (9, 10, 13)) else 63 for ch in b)
         if dashes and place == "comment":
-            b = b.replace(b"-", b"~")
+            # only the '--' of the recorded finding: a single '-' is representable (escapedComment puts a space after
+            # a trailing one), so a document that still fails with every '--' gone is not explained by that finding
+            b = _DASHES.sub(lambda m: b"~" * len(m.group(0)), b)
         return b
     return sub
 
@@ -1125,8 +1289,23 @@ def oracle(c, impl_out):
     if not (vx or vh):
         return None
     bs = c.get("bs")
-    out_b, err_b, bb, cap_b = flatten_real(tree, sub=lambda i, orig, place: _ph(i), capture=True, bs=bs)
-    out_t, err_t, bt, cap_t = flatten_real(tree, capture=True, bs=bs)
+    inter = bool(c.get("inter"))
+    out_b, err_b, bb, cap_b = flatten_real(tree, sub=lambda i, orig, place: _ph(i), capture=True, bs=bs, inter=inter)
+    out_t, err_t, bt, cap_t = flatten_real(tree, capture=True, bs=bs, inter=inter)
+    # documents flattened while this one was in progress (from inside a render(), or while it waited for a Deferred)
+    # are what they are when flattened alone
+    for side, res in bt.sides:
+        alone = flatten_real(side)[0]
+        if alone is not None and res != [alone]:
+            return {"key": "reentrant", "detail": "a document flattened from inside render() came out as %s, alone as %s"
+                    % (_abbr(res[0]) if res and isinstance(res[0], bytes) else res, _abbr(alone))}
+    if bt.inter:
+        if not _INTER_OUT:
+            _INTER_OUT.append(_inter_run())
+        for r in bt.inter:
+            if r != _INTER_OUT[0]:
+                return {"key": "interleaved", "detail": "a document flattened while another one waited for a Deferred came out as %r, "
+                        "alone as %r" % (r, _INTER_OUT[0])}
     if out_b is None or out_t is None:
         if err_b != err_t:
             return {"key": "content-raises", "detail": "with inert content: %s, as generated: %s" % (err_b, err_t)}
@@ -1177,9 +1356,22 @@ def _comment_cause(tree, html, bs=None):
 HOSTILE = ["<", ">", "&", '"', "'", "-", "--", "-->", "--!>", "]]>", "]]", "<!--", "!", "]", "a", "b", " ", "=", "/",
            "</div>", "<script>", "&amp;", "&lt;", "&#60;", "\x00", "\x01", "\x1f", "\x7f", "\r", "\n", "\t", "\x0c",
            "é", "€", "\U0001F600", "<![CDATA[", "->", "<!", ";", "--!", "- "]
+# strings a fast path / special case could be keyed on: URL shapes, other markup openers, entity forms, script-ish text
+KEYED = ["http://", "https://h.example/p?a=1&b=2", "://", "//h/", "javascript:", "data:text/html,", "mailto:a@b", "?", "#", "%3C",
+         "<?xml ", "?>", "<!DOCTYPE x>", "</script>", "</style>", "</textarea>", "</title>", "&quot;", "&gt;", "&apos;", "&#x3c;",
+         "&#0;", "&amp;amp;", "&nbsp;", "\\", "{{x}}", "${x}", "`", "\u2028", "\x85", "\xa0", "\ufeff", "\ufffd", "xmlns", "on", "0", "None"]
 BYTES_EXTRA = [b"\xff", b"\x80", b"\xc3"]
 TAGS = ["div", "p", "span", "a", "br", "img", "input", "hr", "Div", "BR", "x:y", "_u", "svg", "h1", "my-el", "a.b", "td"]
+# element names with a special meaning to some consumer (HTML raw text / RCDATA elements: XML reading only, see
+# names_valid; void elements; foreign content roots; table / select / template contexts; document skeleton)
+SPECIAL_TAGS = ["script", "style", "textarea", "title", "xmp", "noscript", "plaintext", "SCRIPT", "Style", "pre", "table", "tr", "select",
+                "option", "template", "math", "body", "head", "html", "meta", "link", "wbr", "wbs", "base", "form", "button", "iframe",
+                "object", "embed", "t:slot", "t:attr", "t:transparent"]
 ATTRS = ["id", "class", "href", "title", "data-x", "xml:lang", "Alt", "_p", "a1"]
+SPECIAL_ATTRS = ["xmlns", "xmlns:t", "xmlns:xlink", "xlink:href", "style", "onclick", "onerror", "src", "srcdoc", "value", "checked",
+                 "action", "content", "http-equiv", "data-json", "for", "name", "type", "t:render", "lang", "is"]
+# ordinals of CharRef nodes: markup characters, plain ASCII, non-ASCII (HTML reading only)
+CHARREF_ORDS = [60, 62, 38, 34, 39, 45, 93, 33, 47, 61, 32, 35, 59, 65, 97, 48, 126, 233, 160, 8364, 128512, 0x2028, 0xFFFD]
 BAD_NAMES = ["a b", "a>b", 'a"b', "1a", "a=b", "", "a/b", "a<b", "é", "\xff", "-a"]
 SLOTS = ["s", "t", "u"]
 
@@ -1187,7 +1379,7 @@ SLOTS = ["s", "t", "u"]
 def _string(rng, n=None):
     n = rng.choice([0, 1, 1, 2, 2, 3, 4, 6]) if n is None else n
     kind = "s" if rng.random() < 0.6 else "b"
-    parts = [rng.choice(HOSTILE) for _ in range(n)]
+    parts = [rng.choice(KEYED) if rng.random() < 0.15 else rng.choice(HOSTILE) for _ in range(n)]
     b = "".join(parts).encode("utf-8")
     if kind == "b" and rng.random() < 0.2:
         b += rng.choice(BYTES_EXTRA)
@@ -1207,9 +1399,14 @@ def _frame(rng):
     return fr
 
 
+TAGS_T = TAGS + [""]
+
+
 def _name(rng, pool, bad_ok):
     if bad_ok and rng.random() < 0.5:
         n = rng.choice(BAD_NAMES)
+    elif rng.random() < 0.25:
+        n = rng.choice(SPECIAL_ATTRS if pool is ATTRS else SPECIAL_TAGS)
     else:
         n = rng.choice(pool)
     kind = "s" if (rng.random() < 0.7 or any(ord(ch) > 127 for ch in n)) and all(ord(ch) < 128 for ch in n) else "b"
@@ -1218,6 +1415,8 @@ def _name(rng, pool, bad_ok):
 
 def _node(rng, depth, bad, in_attr=False):
     r = rng.random()
+    if r < 0.012:
+        return ["X", rng.choice(CHARREF_ORDS)]
     if depth <= 0 or r < 0.30:
         h, k = _string(rng)
         return ["T", h, k]
@@ -1232,7 +1431,7 @@ def _node(rng, depth, bad, in_attr=False):
     if r < 0.58:
         return ["SD", rng.choice(SLOTS), _node(rng, depth - 1, bad, in_attr)]
     if r < 0.80:
-        name, nk = _name(rng, TAGS + [""], bad)
+        name, nk = _name(rng, TAGS_T, bad)
         attrs = []
         seen = set()
         for _ in range(rng.choice([0, 0, 1, 1, 2, 3])):
@@ -1252,7 +1451,19 @@ def _node(rng, depth, bad, in_attr=False):
         while sub[0] == "F":              # a Deferred never fires with a Deferred
             sub = sub[2]
         return ["F", rng.choice(["fired", "later", "coro"]), sub]
-    return ["E", _node(rng, depth - 1, bad, in_attr)]
+    if r < 0.985:
+        return ["E", _node(rng, depth - 1, bad, in_attr)]
+    return ["N", _side(rng), _node(rng, depth - 1, bad, in_attr)]
+
+
+def _side(rng):
+    """the tree a render() flattens to a string before it returns its own content"""
+    r = rng.random()
+    if r < 0.3:
+        return ["T", _string(rng)[0], "s"]
+    if r < 0.6:
+        return ["G", "i", "s", None, [["id", "s", ["T", _string(rng)[0], "s"]]], [["T", _string(rng)[0], "b"]], "list"]
+    return _node(rng, 2, False)
 
 
 def _tree(rng, bad):
@@ -1260,6 +1471,8 @@ def _tree(rng, bad):
     r = rng.random()
     if r < 0.5:
         t = ["E", t]                      # give render directives a factory most of the time
+        if r < 0.08:
+            t = ["N", _side(rng), t[1]]   # ... sometimes one whose render() flattens another document first
     if r < 0.8 and rng.random() < 0.6:
         t = ["G", rng.choice(["div", "html", ""]), "s", {k: [_string(rng)[0], "s", "plain"] for k in SLOTS}, [], [t], "list"]
     return t
@@ -1374,6 +1587,8 @@ def _contents_of(n, acc, attr=False):
         _contents_of(n[2], acc, attr)
     elif k == "E":
         _contents_of(n[1], acc, attr)
+    elif k == "N":
+        _contents_of(n[2], acc, attr)
     return acc
 
 
@@ -1463,6 +1678,123 @@ def _all_strings(maxlen):
         yield from cur
 
 
+# ---- classes added by the white-box mutation audit (harness/mutants/C28) ----
+
+def _x_single(place, o, before="", after=""):
+    """one CharRef(o) in one place of a small document, between two text nodes"""
+    x = [["T", before.encode().hex(), "s"], ["X", o], ["T", after.encode().hex(), "b"]]
+    if place == "text":
+        return ["G", "p", "s", None, [], x, "list"]
+    if place == "attr":                  # directly in an attribute value
+        return ["G", "a", "s", None, [["title", "s", ["L", "list", x]]], [["T", "79", "s"]], "list"]
+    if place == "attr-tag":              # child of a Tag that is inside an attribute value
+        return ["G", "img", "s", None, [["alt", "s", ["G", "b", "s", None, [["id", "s", ["X", o]]], x, "list"]]], [], "list"]
+    if place == "slot-default":
+        return ["G", "p", "s", None, [["id", "s", ["SD", "s", ["X", o]]]], [["SD", "s", ["L", "tuple", x]]], "list"]
+    if place == "later":
+        return ["G", "p", "s", None, [], [["T", "78", "s"], ["F", "later", ["L", "gen", x]]], "list"]
+    if place == "render":
+        return ["E", ["G", "p", "s", None, [], [["R", None, ["L", "list", x]]], "list"]]
+    if place == "top":
+        return ["L", "list", x]
+    if place == "svg":                   # next to CDATA and a comment
+        return ["G", "svg", "s", None, [], [["D", before.encode().hex(), "s"]] + x + [["C", after.encode().hex(), "s"]], "list"]
+    raise ValueError(place)
+
+
+X_PLACES = ["text", "text", "attr", "attr-tag", "slot-default", "later", "render", "top", "svg"]
+X_NEIGHBOURS = ["", "", "&", "&#", "<", "a", ";", "60;", "]]", "--", '"', "&amp", "<!--", "é"]
+
+
+def _charref_cases(rng, n):
+    for o in (60, 62, 38, 34, 39, 65, 233):          # deterministic: each markup character in each place
+        for place in ("text", "attr", "attr-tag", "slot-default", "top"):
+            yield {"tree": _x_single(place, o)}
+    for _ in range(n):
+        yield {"tree": _x_single(rng.choice(X_PLACES), rng.choice(CHARREF_ORDS), rng.choice(X_NEIGHBOURS), rng.choice(X_NEIGHBOURS))}
+
+
+def _reentrant_cases(rng, n):
+    """a render() that flattens another document (completely, to a string) before it returns its own content — at the
+    start / in the middle / at the end of the outer document, inside an attribute value, behind a Deferred, nested —
+    and documents flattened while the case's own flattening waits for an unfired Deferred (`inter`)"""
+    for i in range(n):
+        sub = _node(rng, rng.randint(0, 3), False)
+        node = ["N", _side(rng), sub]
+        r = i % 6
+        pre = ["T", _string(rng, 2)[0], "s"]
+        post = ["T", _string(rng, 2)[0], "b"]
+        if r == 0:
+            t = ["G", rng.choice(["div", "svg"]), "s", None, [["id", "s", ["T", _string(rng)[0], "s"]]], [pre, node, post], "list"]
+        elif r == 1:
+            t = ["G", "a", "s", None, [["href", "s", ["L", "list", [pre, node, post]]]], [post], "list"]
+        elif r == 2:
+            t = ["L", "list", [pre, ["F", rng.choice(["later", "fired", "coro"]), node], post]]
+        elif r == 3:
+            t = ["L", "tuple", [pre, ["N", _side(rng), ["G", "b", "s", None, [], [node], "list"]], post]]
+        elif r == 4:
+            t = ["G", "p", "s", None, [], [pre, ["C", _string(rng)[0], "s"], node, ["D", _string(rng)[0], "s"], node], "list"]
+        else:
+            t = ["L", "list", [pre, ["N", ["F", "later", _side(rng)], sub], post]]
+        c = {"tree": t}
+        if r in (2, 5) or rng.random() < 0.2:
+            c["inter"] = 1
+        if rng.random() < 0.25:
+            c["bs"] = rng.choice([1, 2, 3, 8, 64])
+        yield c
+
+
+def _later_in(n):
+    k = n[0]
+    if k == "F":
+        return n[1] == "later" or _later_in(n[2])
+    if k == "G":
+        return any(_later_in(a[2]) for a in n[4]) or any(_later_in(c) for c in n[5])
+    if k in ("SD", "R", "N"):
+        return _later_in(n[2])
+    if k == "E":
+        return _later_in(n[1])
+    if k == "L":
+        return any(_later_in(c) for c in n[2])
+    return False
+
+
+def _interleaved_cases(rng, n):
+    """random trees that wait for at least one unfired Deferred; another document is flattened during every wait"""
+    made = 0
+    for _ in range(n * 40):
+        t = _tree(rng, bad=False)
+        if _later_in(t):
+            made += 1
+            yield {"tree": t, "inter": 1}
+            if made >= n:
+                return
+
+
+KEYED_PLACES = ["attr", "attr", "attr", "text", "slot", "attr-tag", "comment", "cdata", "attr-cdata", "slot-later", "render-text"]
+
+
+def _keyed_cases(rng, n):
+    """one string that begins with / contains a shape a special case could be keyed on (URL, entity, markup opener, ...)
+    together with hostile characters, in each kind of place; and the special element / attribute names around hostile content"""
+    for i in range(n):
+        key = rng.choice(KEYED)
+        host = "".join(rng.choice(HOSTILE) for _ in range(rng.randint(1, 3)))
+        val = rng.choice([key + host, host + key, key + host + key, host + key + host])
+        place = rng.choice(KEYED_PLACES)
+        t = _single(place, val.encode("utf-8"), rng.choice(["s", "b"]))
+        yield {"tree": t}
+    for i in range(n):
+        h, k = _string(rng, rng.randint(1, 3))
+        h2, k2 = _string(rng, rng.randint(1, 3))
+        name = rng.choice(SPECIAL_TAGS)
+        attr = rng.choice(SPECIAL_ATTRS)
+        inner = ["G", name, rng.choice(["s", "b"]), None, [[attr, rng.choice(["s", "b"]), ["T", h2, k2]]],
+                 [rng.choice([["T", h, k], ["C", h, k], ["D", h, k], ["L", "gen", [["T", h, k], ["T", h2, k2]]]])], "list"]
+        yield {"tree": rng.choice([inner, ["G", "div", "s", None, [], [inner], "list"],
+                                   ["G", "img", "s", None, [["alt", "s", inner]], [], "list"]])}
+
+
 def corpus():
     cs = []
     for place, s in [("comment", b">"), ("comment", b"->x"), ("comment", b"a--!>b"), ("comment", b"--!><script>alert(1)</script>"),
@@ -1491,6 +1823,24 @@ def corpus():
                      ("later-cdata", b"]]>")]:
         for bs in (1, 2, 3):
             cs.append({"tree": _single(place, s), "bs": bs})
+    # white-box mutation audit (harness/mutants/C28): witnesses of the mutants that survived the first run
+    cs.append({"tree": _single("attr", b'http://h/?a=1&lt=2<">')})                       # m04: URL-shaped attribute value
+    cs.append({"tree": _single("attr", b'x://"<&>')})
+    cs.append({"tree": ["G", "div", "s", None, [], [["G", "script", "s", None, [], [["T", b'</script><img src=x onerror=a>'.hex(), "s"]], "list"]], "list"]})  # m08
+    cs.append({"tree": ["G", "style", "b", None, [], [["T", b"a<b/>&".hex(), "b"]], "list"]})
+    cs.append({"tree": ["G", "svg", "s", None, [["xmlns:x", "s", ["T", b'u"><script>'.hex(), "s"]]], [], "list"]})   # m15
+    cs.append({"tree": ["G", "p", "s", None, [["xmlns", "b", ["T", b'&<">'.hex(), "b"]]], [["T", "78", "s"]], "list"]})
+    for o in (60, 62, 38, 34):                                                              # m11: CharRef of a markup character
+        cs.append({"tree": _x_single("text", o, "a", "b")})
+        cs.append({"tree": _x_single("attr-tag", o)})
+    cs.append({"tree": _x_single("attr", 34)})
+    cs.append({"tree": _x_single("text", 233)})
+    # m12: a render() that flattens another document in the middle of this one
+    cs.append({"tree": ["G", "div", "s", None, [["id", "s", ["T", "2278", "s"]]],
+                        [["T", "6265666f7265", "s"], ["N", ["G", "i", "s", None, [], [["T", "73696465", "s"]], "list"],
+                                                      ["G", "b", "s", None, [], [["T", "3c696e6e65723e", "s"]], "list"]],
+                         ["T", "6166746572", "s"]], "list"]})
+    cs.append({"tree": ["L", "list", [["T", "3c", "s"], ["F", "later", ["N", ["T", "26", "s"], ["T", "3e", "s"]]], ["T", "22", "s"]]], "inter": 1})
     return cs
 
 
@@ -1506,6 +1856,17 @@ def generate(rng, tier):
     for i in range(n):
         yield {"tree": _tree(rng, bad=(i % 6 == 0))}
     # large content / buffer boundaries (real BUFFER_SIZE), then the same class at small scale
+    # classes added by the white-box mutation audit: keyed shapes / special names, CharRef, re-entrant and interleaved flattening
+    if tier == "quick":
+        yield from _keyed_cases(rng, 300)
+        yield from _charref_cases(rng, 200)
+        yield from _reentrant_cases(rng, 240)
+        yield from _interleaved_cases(rng, 150)
+    else:
+        yield from _keyed_cases(rng, 4000)
+        yield from _charref_cases(rng, 3000)
+        yield from _reentrant_cases(rng, 3000)
+        yield from _interleaved_cases(rng, 2000)
     if tier == "quick":
         yield from _boundary_cases([("cdata", "]]]>"), ("comment", "--!>"), ("text", "&"), ("attr", '"')], (1,))
         yield from _big_cases(rng, 110, 60, 60)
@@ -1522,6 +1883,10 @@ def search(rng, tier, disagreeing):
             yield {"tree": _single(place, s)}
     for i in range(4000):
         yield {"tree": _tree(rng, bad=False)}
+    yield from _keyed_cases(rng, 600)
+    yield from _charref_cases(rng, 300)
+    yield from _reentrant_cases(rng, 300)
+    yield from _interleaved_cases(rng, 200)
     yield from _boundary_cases([(p, c) for p in ("cdata", "comment", "text", "attr") for c in CLUSTERS[p][1:3]], (1,))
     yield from _big_cases(rng, 60, 30, 30)
     yield from _scaled_cases(rng, 3, 1500)
@@ -1551,6 +1916,8 @@ def _strings(n, acc):
         _strings(n[2], acc)
     elif k == "E":
         _strings(n[1], acc)
+    elif k == "N":
+        _strings(n[2], acc)
     return acc
 
 
@@ -1567,7 +1934,24 @@ def tag(c, out):
     strs = _strings(c["tree"], [])
     size = ("r" if "bs" not in c else "b%d" % bs) + ("L" if any(len(x) > bs for x in strs) else "") + \
         ("A" if sum(len(x) for x in strs) > bs else "") + ("X" if any(_straddles(x, bs) for x in strs) else "")
-    return f"{ks}|{feats}|{int(vx)}{int(vh)}|{res}|{size}"
+    extra = ("i" if c.get("inter") else "") + ("u" if b"://" in allb else "") + \
+        ("n" if _special_names(c["tree"]) else "")
+    return f"{ks}|{feats}|{int(vx)}{int(vh)}|{res}|{size}|{extra}"
+
+
+def _special_names(n):
+    k = n[0]
+    if k == "G":
+        if n[1] in SPECIAL_TAGS or any(a[0] in SPECIAL_ATTRS for a in n[4]):
+            return True
+        return any(_special_names(a[2]) for a in n[4]) or any(_special_names(c) for c in n[5])
+    if k in ("SD", "R", "F", "N"):
+        return _special_names(n[2])
+    if k == "E":
+        return _special_names(n[1])
+    if k == "L":
+        return any(_special_names(c) for c in n[2])
+    return False
 
 
 _MULTI = (b"]]>", b"-->", b"--!>", b"<!--", b"--", b"->", b"&amp;", b"&lt;", b"&gt;", b"\r\n")
@@ -1635,11 +2019,20 @@ def shrink(c):
             yield n[1]
             for v in variants(n[1]):
                 yield ["E", v]
+        elif k == "N":
+            yield n[2]
+            yield ["E", n[2]]
+            if n[1] != ["T", "78", "s"]:
+                yield ["N", ["T", "78", "s"], n[2]]
+            for v in variants(n[2]):
+                yield ["N", n[1], v]
         elif k == "L":
             for i in range(len(n[2])):
                 yield n[2][i]
                 yield [n[0], n[1], n[2][:i] + n[2][i + 1:]]
                 for v in variants(n[2][i]):
                     yield [n[0], n[1], n[2][:i] + [v] + n[2][i + 1:]]
+    if "inter" in extra:
+        yield {k: v for k, v in c.items() if k != "inter"}
     for v in variants(t):
         yield dict(extra, tree=v)
